@@ -97,6 +97,71 @@ func (c *Conn) VerifC34SendKeyUpdate(requestUpdate bool) error {
 	return nil
 }
 
+// VerifC34WriteProtectedRecord sends ONE record of the given type whose payload (any length, also zero) is protected by
+// halfConn.encrypt exactly as writeRecordLocked would (which never emits an empty or over-long record itself).
+func (c *Conn) VerifC34WriteProtectedRecord(typ uint8, payload []byte) error {
+	c.out.Lock()
+	defer c.out.Unlock()
+	vers := c.vers
+	if vers == VersionTLS13 {
+		vers = VersionTLS12
+	}
+	rec, err := c.out.encrypt([]byte{typ, byte(vers >> 8), byte(vers), 0, 0}, payload, c.config.rand())
+	if err != nil {
+		return err
+	}
+	if _, err = c.write(rec); err != nil {
+		return err
+	}
+	_, err = c.flush()
+	return err
+}
+
+// VerifC34CBCInfo describes the write protection when it is a CBC suite.
+func (c *Conn) VerifC34CBCInfo() (isCBC bool, blockSize, macSize int, explicitIV bool) {
+	c.out.Lock()
+	defer c.out.Unlock()
+	cbc, ok := c.out.cipher.(cbcMode)
+	if !ok || c.out.mac == nil {
+		return false, 0, 0, false
+	}
+	return true, cbc.BlockSize(), c.out.mac.Size(), c.out.version >= VersionTLS11
+}
+
+// VerifC34WriteCBCBlocks sends one record whose CBC plaintext is exactly `blocks` (a multiple of the block size): the
+// caller chooses content, MAC bytes and padding; the connection's CBC state, keys and (TLS 1.1+) a fresh explicit IV are used.
+func (c *Conn) VerifC34WriteCBCBlocks(typ uint8, blocks []byte) error {
+	c.out.Lock()
+	defer c.out.Unlock()
+	cbc, ok := c.out.cipher.(cbcMode)
+	if !ok {
+		return errors.New("verif: write protection is not CBC")
+	}
+	if len(blocks)%cbc.BlockSize() != 0 {
+		return errors.New("verif: not a multiple of the block size")
+	}
+	rec := []byte{typ, byte(c.vers >> 8), byte(c.vers), 0, 0}
+	if c.out.version >= VersionTLS11 {
+		iv := make([]byte, cbc.BlockSize())
+		if _, err := c.config.rand().Read(iv); err != nil {
+			return err
+		}
+		rec = append(rec, iv...)
+		cbc.SetIV(iv)
+	}
+	dst := make([]byte, len(blocks))
+	cbc.CryptBlocks(dst, blocks)
+	rec = append(rec, dst...)
+	n := len(rec) - recordHeaderLen
+	rec[3], rec[4] = byte(n>>8), byte(n)
+	c.out.incSeq()
+	if _, err := c.write(rec); err != nil {
+		return err
+	}
+	_, err := c.flush()
+	return err
+}
+
 // VerifC34Client13 is a TLS 1.3 client whose handshake is the sequence of the package's own client sub-steps
 // (handshake_client.go:270-394, handshake_client_tls13.go:52-178; no ECH, HelloRetryRequest or resumption), calling
 // inject(pos) between them and sending what it returns as handshake records:
